@@ -21,7 +21,7 @@ ASSUMPTIONS = [
     "single-threaded: the bytes read right after an answer are the bytes the answer was about",
 ]
 MONITORS = "every (meta, hash) obtained through the state cache or carried over by update() compared with hashlib at the same instant"
-REQUIRED_COUNTERS = ["failed_adds_over_an_existing_path", "failed_create_index_checkouts_with_meta_update", "batched_lookups_of_legacy_rows", "alias_path_queries", "index_update_with_swap_during_md5", "index_md5_on_reused_index", "memfs_batched_queries", "failed_link_checkouts", "failed_create_index_checkouts", "large_file_cases", "index_update_with_reloaded_old_index", "racing_writer_queries", "symlinked_files", "answers_checked", "state_hits_checked", "mutations", "get_vs_get_many_compared", "staging_listings_checked", "index_md5_checked",
+REQUIRED_COUNTERS = ["re_adds_into_a_verifying_store", "legacy_store_checkouts", "failed_adds_over_an_existing_path", "failed_create_index_checkouts_with_meta_update", "batched_lookups_of_legacy_rows", "alias_path_queries", "index_update_with_swap_during_md5", "index_md5_on_reused_index", "memfs_batched_queries", "failed_link_checkouts", "failed_create_index_checkouts", "large_file_cases", "index_update_with_reloaded_old_index", "racing_writer_queries", "symlinked_files", "answers_checked", "state_hits_checked", "mutations", "get_vs_get_many_compared", "staging_listings_checked", "index_md5_checked",
                      "index_update_carried_checked", "injected_rows", "memfs_queries", "batch_boundary_cases", "mutations_between_queries", "ext4_cases"]
 
 ALGOS = ["md5", "sha256", "md5-dos2unix", "blake3"]
@@ -276,7 +276,7 @@ def run_shard(ctx):
                         else:
                             cur[p] = new
                     continue
-                q = rng.choice(["hash_file", "hash_file", "get", "get_many", "_get_hashes", "build", "index_md5", "index_update", "inject", "memfs", "racing-writer", "checkout-failed-link", "index-checkout-failed-create", "alias-through-dir-symlink", "add-failed-over-existing-path"])
+                q = rng.choice(["hash_file", "hash_file", "get", "get_many", "_get_hashes", "build", "index_md5", "index_update", "inject", "memfs", "racing-writer", "checkout-failed-link", "index-checkout-failed-create", "alias-through-dir-symlink", "add-failed-over-existing-path", "legacy-store-checkout", "re-add-into-verifying-store"])
                 if batch and q in ("build", "index_md5", "index_update"):
                     q = "get_many"
                 hist.append(["query", q, ""])
@@ -593,6 +593,53 @@ def run_shard(ctx):
                                                   "in the hash state under the target's hash", case=case, detail={"history": hist[-6:]})
                             else:
                                 verify(pp, "md5", h1.value, "hash_file/after-index-checkout-with-failed-create")
+                elif q == "legacy-store-checkout":
+                    # a directory with CRLF text is stored in a store of the legacy (text-normalising) md5, loaded from it as its
+                    # callers do (no hash name given) and checked out with the hash state: the rows checkout records are legacy
+                    # rows, and a later md5 query of those files must not be answered from them
+                    from dvc_data.hashfile import load as _load
+                    from dvc_data.hashfile.checkout import checkout as _checkout
+                    from dvc_data.hashfile.transfer import transfer as _transfer
+
+                    res.count("legacy_store_checkouts")
+                    lodb = env.local_odb(os.path.join(d, "legacy-cache"), state=state, hash_name="md5-dos2unix")
+                    lsrc = os.path.join(d, f"legacy-src-{len(hist)}")
+                    lfiles = {("text.txt",): b"line one\r\nline two\r\n" + gen.small_content(rng).replace(b"\0", b"x"), ("sub", "more.txt"): b"a\r\nb\r\n" * rng.randrange(1, 50),
+                              ("bin",): b"\0\r\n" + gen.small_content(rng)}
+                    gen.write_tree(lsrc, lfiles)
+                    stg, _m, lobj = build(lodb, lsrc, fs, "md5-dos2unix")
+                    _transfer(stg, lodb, {lobj.hash_info}, shallow=False)
+                    ltree = _load(lodb, lobj.hash_info)
+                    lout = os.path.join(d, f"legacy-out-{len(hist)}")
+                    _checkout(lout, fs, ltree, lodb, force=True, state=state)
+                    for k_ in lfiles:
+                        pp_ = os.path.join(lout, *k_)
+                        _m1, h1 = hash_file(pp_, fs, "md5", state=state)
+                        verify(pp_, "md5", h1.value, "hash_file/md5-after-checkout-from-legacy-store")
+                elif q == "re-add-into-verifying-store":
+                    # a store configured to verify holds a protected object whose bytes were since rewritten in place (through a hard
+                    # link in a workspace, say); the same oid is added again - it exists, so nothing is written - and no row may
+                    # vouch for the object file's current bytes
+                    res.count("re_adds_into_a_verifying_store")
+                    vodb = env.local_odb(os.path.join(d, "verifying-cache"), state=state, verify=True)
+                    vdata = gen.small_content(rng) + b"-v%d" % len(hist)
+                    vsrc = os.path.join(d, f"vsrc-{len(hist)}")
+                    with open(vsrc, "wb") as f:
+                        f.write(vdata)
+                    void = H("md5", vdata)
+                    vodb.add(vsrc, fs, void)
+                    vp_ = vodb.oid_to_path(void)
+                    with open(vp_, "r+b") as f:
+                        f.write(b"X" + vdata[1:] if vdata[:1] != b"X" else b"Y" + vdata[1:])
+                        if rng.random() < 0.5:
+                            f.write(b"-grown")
+                    try:
+                        vodb.add(vsrc, fs, void)
+                    except Exception:  # noqa: BLE001  (refusing loudly is fine)
+                        res.count("re_adds_into_a_verifying_store_refused")
+                    if os.path.isfile(vp_):
+                        _m1, h1 = hash_file(vp_, fs, "md5", state=state)
+                        verify(vp_, "md5", h1.value, "hash_file/object-after-re-add-into-verifying-store")
                 elif q == "add-failed-over-existing-path":
                     # adding an object fails (its source is gone; the caller's error hook is told) while other bytes already sit at the
                     # object's path in a store that does not check what it holds: no row may vouch for those bytes
